@@ -1,4 +1,6 @@
 ENGINES = [
+ {'name': 'e2_seg', 'path': 'src/engines/e2_seg.c', 'serves_properties': ['C05', 'C07', 'C09', 'C10', 'C08', 'C19', 'C20'],
+  'kind_free_text': 'segmentation enumerator over stream objects (multi-hash, stitched murmur, GCM streaming) and explicit-state search over (position, max_len) for the rolling hash, all on the real code'},
  {'name': 'e3_aes', 'path': 'src/engines/e3_aes.c', 'serves_properties': ['C02', 'C03', 'C04', 'C08', 'C14', 'C19', 'C20'],
   'kind_free_text': 'exhaustive shape-grid enumeration over every AES family symbol of the freshly built library, with guard-page, canary, trampoline and secret-scan monitors'},
 ]
@@ -18,4 +20,20 @@ TEXT = {
   'technique': 'bounded exhaustive enumeration of call shapes on the real code against a reference implementation',
   'level_text': 'Both expanded schedules of every key-expansion family are compared word for word with FIPS-197 for structured and seeded keys; every CBC block count that reaches a distinct loop/tail combination is run on every encrypt/decrypt family, in place and disjoint, at all data alignments, against SP 800-38A.',
   'level_note': _E3NOTE},
+ 'C05': {'engine': 'e2_seg', 'design_ref': 'DESIGN.md 5.5',
+  'technique': 'bounded exhaustive enumeration of update segmentations on the real code against a reference implementation',
+  'level_text': 'Every way of cutting a stream into two (and a structured set of three) update calls within the bound is executed on every block-function family of mh_sha1 and mh_sha256 and compared with an independent implementation of the multi-hash definition; the carry logic branches only on (partial length, new length) which the grid covers completely.',
+  'level_note': _E3NOTE},
+ 'C10': {'engine': 'e2_seg', 'design_ref': 'DESIGN.md 5.10',
+  'technique': 'bounded exhaustive enumeration of update segmentations on the real code against two reference implementations',
+  'level_text': 'As C05 for the stitched function: both outputs are compared with stand-alone references (multi-hash definition, MurmurHash3_x64_128) for every segmentation in the bound, every family and five seeds.',
+  'level_note': _E3NOTE},
+ 'C07': {'engine': 'e2_seg', 'design_ref': 'DESIGN.md 5.7',
+  'technique': 'bounded exhaustive enumeration of update segmentations on the real code, differential against the one-shot call',
+  'level_text': 'All compositions of short messages into three updates, the full carried-residue x fill grid around block completion and loop entry, and the non-temporal variant under its documented rule are run on all four macro families; output is compared with the one-shot call of the same family after each update and at finalize.',
+  'level_note': _E3NOTE},
+ 'C09': {'engine': 'e2_seg', 'design_ref': 'DESIGN.md 5.9',
+  'technique': 'explicit-state model checking of the implementation: all (position, max_len) transitions from canonical states, canonical-state check after each, chained-run conformance',
+  'level_text': 'The reachable state of a rolling-hash object over a fixed stream is its position; every transition (every max_len at every position) is executed on the real code for every window size, scan routine and mask class, the result is compared with the definition computed from a pinned copy of the table, and the successor state is checked to be canonical - an inductive argument that covers every partition into any number of run calls.',
+  'level_note': _E3NOTE + '; the pinned table copy makes a changed constant a violation'},
 }
